@@ -2,7 +2,7 @@
    f(x, y).  Only statements closed by [exact] + Print Assumptions. *)
 From Coq Require Import NArith List Bool.
 From Mpc Require Import Base.Label Base.Codec Base.CodecProof Circuit.Circuit Circuit.Garble
-     Proto.Session Proto.SessionProof Proto.Conn Proto.ConnProof Proto.SessionConn.
+     Proto.Session Proto.SessionProof Proto.Conn Proto.ConnProof Proto.SessionConn Proto.SessionOT.
 Import ListNotations.
 
 (* For every key-indexed family of block functions, every random stream,
@@ -62,3 +62,32 @@ Theorem C02_messages_over_conn :
     = Some (map val_of_msg ms).
 Proof. exact session_msgs_over_conn. Qed.
 Print Assumptions C02_messages_over_conn.
+
+(* The session theorem for ANY oblivious transfer that delivers exactly the
+   chosen label at every position (the C06 specification). *)
+Theorem C02_session_correct_any_ot :
+  forall (pi_of_key : list N -> N -> N) (ot : list wire -> list bool -> option (list N))
+         (rnd : nat -> N) (key : list N) (scratch : list wire) (c : circ2) (x y : list bool),
+    ot_correct ot ->
+    wf2 c = true -> length x = n0 c -> length y = n1 c ->
+    let r := Codec.split_bits (outs c) (Codec.bits_to_N (eval_plain (cc c) (x ++ y))) in
+    exists g2e e2g, run_session pi_of_key ot rnd key scratch c x y = Ok r r g2e e2g.
+Proof. exact session_correct_any_ot. Qed.
+Print Assumptions C02_session_correct_any_ot.
+
+(* ... discharged inside Coq for the library's IKNP-based correlated OT, in the
+   semi-honest and the malicious mode ([mal]), for every PRG stream family,
+   every 128-bit Delta, every MITCCRH cipher family and stream offset: the
+   composition of the C06 COT model with the session model gives both parties
+   f(x, y). *)
+Theorem C02_session_correct_cot :
+  forall (pi_of_key : list N -> N -> N) (g0 g1 : nat -> nat -> N) (Delta : N) (E : N -> N -> N)
+         (p : nat) (mal : option (N * N))
+         (rnd : nat -> N) (key : list N) (scratch : list wire) (c : circ2) (x y : list bool),
+    (Delta < 2 ^ 128)%N ->
+    wf2 c = true -> length x = n0 c -> length y = n1 c ->
+    let r := Codec.split_bits (outs c) (Codec.bits_to_N (eval_plain (cc c) (x ++ y))) in
+    exists g2e e2g,
+      run_session pi_of_key (cot_ot g0 g1 Delta E p mal) rnd key scratch c x y = Ok r r g2e e2g.
+Proof. exact session_correct_cot. Qed.
+Print Assumptions C02_session_correct_cot.
